@@ -7,18 +7,20 @@ Local Open Scope N_scope.
 Lemma C01_closed : closed_C01 syn_set2 = true.
 Proof. vm_compute. reflexivity. Qed.
 
-Theorem C01 : forall bs, Forall byte bs ->
-  outs (scan_machine syn_set2) (ScancodeSet2_mk DecodeState_Start) bs = outs auto2 ctx2_init bs
-  /\ outs (scan_machine syn_set2) (ScancodeSet2_mk DecodeState_Start) bs <> Panic.
-Proof. exact (C01_sound syn_set2 _ eq_refl C01_closed). Qed.
+(* stated for the decoder's own initial state, whatever fields it has *)
+Theorem C01 : forall s0, sc_init syn_set2 = Ret s0 -> forall bs, Forall byte bs ->
+  outs (scan_machine syn_set2) s0 bs = outs auto2 ctx2_init bs
+  /\ outs (scan_machine syn_set2) s0 bs <> Panic.
+Proof. intros s0 Hi. exact (C01_sound syn_set2 s0 Hi C01_closed). Qed.
+Example C01_init_exists : exists s0, sc_init syn_set2 = Ret s0. Proof. eexists; reflexivity. Qed.
 
-Check C01 : forall bs, Forall byte bs ->
-  outs (scan_machine syn_set2) (ScancodeSet2_mk DecodeState_Start) bs = outs auto2 ctx2_init bs
-  /\ outs (scan_machine syn_set2) (ScancodeSet2_mk DecodeState_Start) bs <> Panic.
+Check C01 : forall s0, sc_init syn_set2 = Ret s0 -> forall bs, Forall byte bs ->
+  outs (scan_machine syn_set2) s0 bs = outs auto2 ctx2_init bs
+  /\ outs (scan_machine syn_set2) s0 bs <> Panic.
 Check set2_sequence : forall p brk c, c < 256 -> code_position p brk c = true ->
   run auto2 ctx2_init (seq2 p brk c) =
   Ret (ctx2_init, repeat (Ok None) (List.length (path2 (p, brk))) ++ [code2 p brk c]).
 Print Assumptions C01.
 Print Assumptions set2_sequence.
 Eval vm_compute in ("evaluations"%string, 6 * 256).
-Eval vm_compute in ("sample"%string, map (fun b => (b, Enc.enc_sc (omap snd (sc_step syn_set2 (ScancodeSet2_mk DecodeState_Extended) b)))) [0x11; 0x12; 0x70; 0xF0; 0x00]).
+Eval vm_compute in ("sample"%string, map (fun b => (b, Enc.enc_sc (at_init syn_set2 Panic (fun s0 => omap (fun os => last os (Ok None)) (outs (scan_machine syn_set2) s0 [0xE0; b]))))) [0x11; 0x12; 0x70; 0xF0; 0x00]).
